@@ -44,6 +44,12 @@ def scenarios(draw):
     sc["reads"] = [r for r in sc["reads"] if R.cigar_blocks(r["p"], r["cg"])[-1][1] + 45 < lens[r["c"]]]
     for i in range(src.int(0, 4)):
         sc["reads"].append(S.unmapped_read("u%d" % i))
+        mapped = [r for r in sc["reads"] if r.get("c") is not None]
+        if mapped and src.bool(0.5):
+            # a "placed" unmapped record (flag 4 with RNAME/POS, e.g. an unmapped mate): at the very start of a mapped
+            # record, or next to it
+            m = src.choice(mapped)
+            sc["reads"][-1]["placed"] = [m["c"], max(0, m["p"] + src.choice([0, 0, 0, 1, -1, 30]))]
     sc["opts"] = ["--data_type", src.choice(["nanopore", "pacbio_ccs"]), "--no_gzip", "--threads",
                   str(src.choice([1, 2]))]
     if src.bool(0.5):
